@@ -273,6 +273,17 @@ func init() {
 					}
 				}
 			}
+			for ri := range poly { // any start vertex, either direction (the closing edge may then run any way)
+				r := poly[ri]
+				k := c.rng.Intn(len(r))
+				r = append(append([][2]int{}, r[k:]...), r[:k]...)
+				if c.rng.Intn(2) == 0 {
+					for a, b := 0, len(r)-1; a < b; a, b = a+1, b-1 {
+						r[a], r[b] = r[b], r[a]
+					}
+				}
+				poly[ri] = r
+			}
 			if c.rng.Intn(3) == 0 { // repeated vertices
 				for ri := range poly {
 					r := poly[ri]
@@ -289,6 +300,41 @@ func init() {
 				}
 			}
 			c14Poly(c, wn, poly, []string{"Polygon", "Geometry", "MultiPolygon"}[c.rng.Intn(3)])
+		}
+		// (2d) rings that start and end on a tile-row edge with an exact latitude (the equator), closing vertex
+		// doubled in half of the cases, the last edge arriving from either side
+		for i := 0; i < c.pick(3000, 30000); i++ {
+			z := uint32(4 + c.rng.Intn(12))
+			maxt := 1 << z
+			k := 2 + c.rng.Intn(2) // the equator is row edge k of the window
+			wn := c14Win{z: z, bx: c.rng.Intn(maxt - W), by: maxt/2 - k, w: W}
+			eq := k * c14U
+			// a star about a centre one lattice step or two off the equator, so that lattice rows of vertices fall on it
+			cy := eq + []int{-64, -32, 32, 64}[c.rng.Intn(4)]
+			outer := c14Star(c, W*c14U/2, cy, 60, []int{16, 32, 64}[c.rng.Intn(3)], 3+c.rng.Intn(7))
+			if outer == nil {
+				continue
+			}
+			var on []int
+			for j, p := range outer {
+				if p[1] == eq {
+					on = append(on, j)
+				}
+			}
+			if len(on) == 0 {
+				continue
+			}
+			st := on[c.rng.Intn(len(on))]
+			r := append(append([][2]int{}, outer[st:]...), outer[:st]...)
+			if c.rng.Intn(2) == 0 { // the other direction, still starting at the same vertex
+				for a, b := 1, len(r)-1; a < b; a, b = a+1, b-1 {
+					r[a], r[b] = r[b], r[a]
+				}
+			}
+			if c.rng.Intn(2) == 0 {
+				r = append(r, r[0], r[0])
+			}
+			c14Poly(c, wn, [][][2]int{r}, []string{"Polygon", "Ring", "Geometry", "MultiPolygon"}[c.rng.Intn(4)])
 		}
 		// (2c) the corner of the world and the shallow zooms: windows whose first tile is tile (0, 0), and whole-world
 		// windows at zooms 0..2; geometry may lie in the first tile
